@@ -32,3 +32,43 @@ Example C09_server_witness :
   map show_kind (firstn 4 (skipn 5 ex1_trace)) = ["Auth"; "AuthNext"; "reply 235"; "AuthOk"]%string /\
   live (firstn 5 ex1_trace) = true.
 Proof. split; [exact ex1_shape_ok|]. split; vm_compute; reflexivity. Qed.
+
+(* ---------------- client half ---------------- *)
+From Smtp Require Import Bytes Base64 Reply ClientReply Client ClientProofs.
+
+Theorem C09_client_faithful : forall c s rounds steps' sN,
+  io_ready c -> hello_done c -> cs_start_err s = None ->
+  cs_steps s = map resp_step rounds ++ steps' ->
+  serves334 (map fst rounds) (c_in c) sN ->
+  let sent := auth_line s :: b64_lines rounds in
+  let got := map fst rounds in
+  (forall msg s', reads0 sN 235 msg s' ->
+     exists c', c_auth c s = (RNil, got, c')
+       /\ c_out c' = c_out c ++ lines sent /\ c_in c' = s' /\ io_ready c' /\ hello_done c')
+  /\ (forall code msg s1 e2 s2,
+        reads0 sN code msg s1 -> code <> 334%Z -> code <> 235%Z -> reads s1 501 e2 s2 ->
+        exists c', c_auth c s = (let '(a, b, d) := to_smtp_err code msg in RSmtp a b d, got, c')
+          /\ c_out c' = c_out c ++ lines (sent ++ [bs "*"]) /\ c_in c' = s2
+          /\ io_ready c' /\ hello_done c')
+  /\ (forall t rest' m ch s1 e2 s2,
+        steps' = CErr t :: rest' -> reads0 sN 334 m s1 -> b64_decode m = Some ch ->
+        reads s1 501 e2 s2 ->
+        exists c', c_auth c s = (RLocal t, got ++ [ch], c')
+          /\ c_out c' = c_out c ++ lines (sent ++ [bs "*"]) /\ c_in c' = s2
+          /\ io_ready c' /\ hello_done c').
+Proof. exact ClientProofs.C09_client_faithful. Qed.
+
+Theorem C09_client_wire_satisfiable : forall chs rest,
+  serves334 chs (flat_map (fun ch => bs "334 " ++ b64_encode ch ++ crlf) chs ++ rest) rest.
+Proof. exact ClientProofs.serves334_wire. Qed.
+
+(* after the exchange the next command works: it writes its own line and gets
+   the next reply *)
+Theorem C09_client_command_mode : forall c expect line e rest,
+  io_ready c -> reads (c_in c) expect e rest ->
+  cmd_err c expect line = (res_of_cerr e, set_in (wrote c (line ++ crlf)) rest).
+Proof. exact ClientProofs.cmd_err_ready. Qed.
+
+Print Assumptions C09_client_faithful.
+Print Assumptions C09_client_wire_satisfiable.
+Print Assumptions C09_client_command_mode.
